@@ -3,7 +3,7 @@ CONSTANTS
     Cfgs <- McCfgs
     Ctors <- McCtors
     Layouts <- McLayouts
-    MaxOps = 4
+    MaxOps = 3
     MaxBlocks = 3
     MaxDepth = 2
     MaxFail = 1
